@@ -106,6 +106,7 @@ func (k *checker) formatCase(idx int) {
 		return
 	}
 	if ferr != nil {
+		c.Event("violation.formatfiles-error", 1)
 		c.Violation("formatfiles-error", "tool.FormatFiles returned an error on a readable tree", "fmt", idx, map[string]interface{}{"error": ferr.Error()})
 		return
 	}
@@ -115,6 +116,7 @@ func (k *checker) formatCase(idx int) {
 	}
 	_, _, pan = core.Guard(func() { ferr = tool.FormatFiles(dir, ".ecal") })
 	if pan || ferr != nil {
+		c.Event("violation.formatfiles-second-run-failed", 1)
 		c.Violation("formatfiles-second-run-failed", "second tool.FormatFiles run failed", "fmt", idx, map[string]interface{}{"error": fmt.Sprint(ferr)})
 		return
 	}
@@ -125,6 +127,7 @@ func (k *checker) formatCase(idx int) {
 	c.Event("format.trees", 1)
 	// the set of paths
 	if !sameKeys(before, after1) || !sameKeys(before, after2) {
+		c.Event("violation.formatfiles-changed-file-set", 1)
 		c.Violation("formatfiles-changed-file-set", "tool.FormatFiles created or removed files", "fmt", idx,
 			map[string]interface{}{"before": keys(before), "after": keys(after2)})
 	}
@@ -134,6 +137,7 @@ func (k *checker) formatCase(idx int) {
 		if !f.isEcal {
 			c.Event("format.other-extension-file", 1)
 			if c1 != orig || c2 != orig {
+				c.Event("violation.formatfiles-touched-other-extension", 1)
 				c.Violation("formatfiles-touched-other-extension", "tool.FormatFiles changed a file without the extension", "fmt", idx,
 					map[string]interface{}{"file": f.rel, "before": orig, "after": c2})
 			}
@@ -148,6 +152,7 @@ func (k *checker) formatCase(idx int) {
 		if perr != nil || t1 == nil || hasNil(t1) {
 			c.Event("format.unparseable-file", 1)
 			if c1 != orig || c2 != orig {
+				c.Event("violation.formatfiles-rewrote-unparseable-file", 1)
 				c.Violation("formatfiles-rewrote-unparseable-file", "tool.FormatFiles changed a file that does not parse", "fmt", idx,
 					map[string]interface{}{"file": f.rel, "before": orig, "after": c2})
 			}
@@ -183,6 +188,7 @@ func (k *checker) formatCase(idx int) {
 			k.report("fmt", idx, orig, t1, lf, nil, nil, "tool.FormatFiles on "+f.rel)
 			continue
 		}
+		c.Event("violation.formatfiles:"+fcat, 1)
 		c.Violation("formatfiles:"+fcat, "tool.FormatFiles left a file that fails the round trip although parser.PrettyPrint does not: "+whatText[fcat], "fmt", idx,
 			map[string]interface{}{"file": f.rel, "before": orig, "after_first_run": c1, "after_second_run": c2, "problem": fmsg})
 	}
